@@ -195,7 +195,8 @@ def _problem(F: IlpFacts, c: ast.Call, branch: str) -> Problem:
                  f"cp.sum(cp.multiply({F.disorders}, {F.x}))", f"cp.sum(cp.multiply({F.x}, {F.disorders}))"):
             objective = "disorders@x"
         else:
-            objective = t
+            # in terms of the function's own values (a local holding disorders[ids] shows as the selection it is)
+            objective = norm(expand_locals(f.node, e, skip=(F.x, F.disorders)))
     lower, upper = -INF, INF
     ok, why = True, ""
     elts = None
